@@ -21,8 +21,250 @@ pub fn plan_for(property: &str) -> Option<(&'static str, Vec<PlanItem>)> {
                 determinism_check: true,
             }],
         ),
+        "C02" => (
+            "C02",
+            vec![
+                PlanItem {
+                    family: "fairlossy",
+                    run: c02_fairlossy,
+                    quick: 6000,
+                    thorough: 200000,
+                    determinism_check: true,
+                },
+                PlanItem {
+                    family: "lossfree",
+                    run: c02_lossfree,
+                    quick: 6000,
+                    thorough: 200000,
+                    determinism_check: true,
+                },
+                PlanItem {
+                    family: "single_fault",
+                    run: c02_single_fault,
+                    quick: 12800,
+                    thorough: 512000,
+                    determinism_check: false,
+                },
+            ],
+        ),
         _ => return None,
     })
+}
+
+fn c02_fairlossy(ctx: &CaseCtx) -> CaseReport {
+    let mut rep = CaseReport::new(ctx.family, ctx.index, ctx.case_seed);
+    let max_total = match ctx.tier {
+        Tier::Quick => 200_000,
+        Tier::Thorough => 1_000_000,
+    };
+    let mut g = duplex::generate(ctx.case_seed, Profile::FairLossy, max_total);
+    // Under sustained loss every segment may need a retransmission, so no clean RTT sample is
+    // ever taken and the timeout legitimately stays backed off (Karn); the default 10 s
+    // inactivity limit would then end the connection by design. The fair-lossy claim is about
+    // the retransmission machinery, so the inactivity limit is configured out of the way.
+    g.cfg.a.remote_inactivity_timeout = Some(std::time::Duration::from_secs(900));
+    g.cfg.b.remote_inactivity_timeout = Some(std::time::Duration::from_secs(900));
+    g.cfg.deadline = std::time::Duration::from_secs(6 * 3600);
+    rep.desc = format!("{} plan[{}]", g.cfg.describe(), g.plan_desc);
+    let run = duplex::run_duplex(ctx.case_seed, &g.cfg, g.plan);
+    let view = WireView::build(&run.events);
+    if let Some(p) = &run.panicked {
+        rep.inconclusive.push(format!("panic during the run: {p}"));
+    }
+    let causes = || duplex_causes(ctx.case_seed, &run.events, &view, run.end_time);
+    let symptoms = || mon::diag::symptoms(&run.events);
+    mon::c02::check_completion(&mut rep, &g.cfg, &run, &causes, &symptoms);
+    let dropped = view.pkts.iter().filter(|p| matches!(p.fate, crate::events::Fate::Drop(_))).count() as u64;
+    rep.counters.add("dropped_datagrams", dropped);
+    rep.counters.add("datagrams", view.pkts.len() as u64);
+    rep.nontrivial = dropped > 0 && view.pkts.len() > 6;
+    let end = run.end_time;
+    finish(&mut rep, ctx, &view, run.events, end);
+    rep
+}
+
+/// Single-fault sweep: take a small loss-free baseline case and re-run it once per datagram
+/// position, dropping (or duplicating / delaying) exactly that datagram. 128 positions per
+/// baseline; baselines with up to 128 datagrams are swept exhaustively.
+fn c02_single_fault(ctx: &CaseCtx) -> CaseReport {
+    let mut rep = CaseReport::new(ctx.family, ctx.index, ctx.case_seed);
+    let baseline_id = ctx.index / 128;
+    let slot = ctx.index % 128;
+    // all cases of one baseline share the baseline's seed
+    let bseed = crate::runner::case_seed(ctx.seed, "single_fault_baseline", baseline_id);
+    let mut g = duplex::generate(bseed, Profile::LossFree, 40_000);
+    g.cfg.tail = 2 * crate::events::SEC;
+    g.cfg.deadline = std::time::Duration::from_secs(3600);
+    // baseline run (loss-free) to learn the trace length
+    let base = duplex::run_duplex(bseed, &g.cfg, duplex::generate(bseed, Profile::LossFree, 40_000).plan);
+    let n = base
+        .events
+        .iter()
+        .filter(|e| matches!(e.ev, crate::events::Ev::Send { .. }))
+        .count() as u64;
+    let k = if n <= 128 { slot } else { slot * n / 128 };
+    if k >= n || k < 3 {
+        // the handshake packets are protected (SYNs are not retransmitted; the accepting side gives
+        // up after 1 s by design), positions beyond the trace do not exist
+        rep.counters.inc("c02_single_fault_positions_skipped");
+        rep.trace_hash = crate::prng::mix2(bseed, k);
+        return rep;
+    }
+    let mut plan = duplex::generate(bseed, Profile::LossFree, 40_000).plan;
+    let kind = (baseline_id + slot) % 8;
+    let what = match kind {
+        0 => {
+            plan.dup_indices.insert(k);
+            "dup"
+        }
+        1 => {
+            plan.delay_indices.insert(k, 300 * crate::events::MS);
+            "delay"
+        }
+        _ => {
+            plan.drop_indices.insert(k);
+            "drop"
+        }
+    };
+    rep.desc = format!("baseline {baseline_id} ({n} datagrams) {what} #{k}: {} plan[{}]", g.cfg.describe(), plan.describe());
+    let run = duplex::run_duplex(bseed, &g.cfg, plan);
+    let view = WireView::build(&run.events);
+    if let Some(p) = &run.panicked {
+        rep.inconclusive.push(format!("panic during the run: {p}"));
+    }
+    let causes = || duplex_causes(bseed, &run.events, &view, run.end_time);
+    let symptoms = || mon::diag::symptoms(&run.events);
+    mon::c02::check_completion(&mut rep, &g.cfg, &run, &causes, &symptoms);
+    rep.counters.inc("c02_single_fault_positions_run");
+    rep.counters.add("datagrams", view.pkts.len() as u64);
+    rep.nontrivial = true;
+    let end = run.end_time;
+    finish(&mut rep, ctx, &view, run.events, end);
+    rep
+}
+
+fn c02_lossfree(ctx: &CaseCtx) -> CaseReport {
+    use crate::app::{ReaderPlan, ReaderStop};
+    use crate::events::MS;
+    use crate::prng::Prng;
+    let mut rep = CaseReport::new(ctx.family, ctx.index, ctx.case_seed);
+    let max_total = match ctx.tier {
+        Tier::Quick => 150_000,
+        Tier::Thorough => 800_000,
+    };
+    let mut g = duplex::generate(ctx.case_seed, Profile::LossFree, max_total);
+    let mut rng = Prng::new(ctx.case_seed ^ 0x10_55F2EE);
+    // readers: greedy from the start, or stalled for a while and then greedy
+    for s in 0..2usize {
+        let total = g.cfg.w[1 - s].total;
+        let stall = if rng.chance(0.4) && total > 2000 {
+            Some((rng.below(total as u64) as usize, rng.range(100, 3000) * MS))
+        } else {
+            None
+        };
+        g.cfg.r[s] = ReaderPlan {
+            buf: (65536, 65536),
+            pause_prob: 0.0,
+            pause: (0, 0),
+            stall,
+            start_delay: 0,
+            stop: ReaderStop::Never,
+        };
+    }
+    // small receive buffers so that the window closes and has to re-open
+    if rng.chance(0.6) {
+        let ipv4 = !g.cfg.ipv6;
+        let lo = 2 * g.cfg.a.max_payload(ipv4).max(g.cfg.b.max_payload(ipv4)) + 1;
+        g.cfg.a.rx_buf = Some(rng.log_range(lo as u64, 20_000.max(lo as u64 + 1)) as usize);
+        g.cfg.b.rx_buf = Some(rng.log_range(lo as u64, 20_000.max(lo as u64 + 1)) as usize);
+    }
+    g.cfg.keep_snapshots = false;
+    g.cfg.deadline = std::time::Duration::from_secs(1800);
+    let latency = g.plan.latency.0;
+    rep.desc = format!("{} plan[{}]", g.cfg.describe(), g.plan_desc);
+    let run = duplex::run_duplex(ctx.case_seed, &g.cfg, g.plan);
+    let view = WireView::build(&run.events);
+    if let Some(p) = &run.panicked {
+        rep.inconclusive.push(format!("panic during the run: {p}"));
+    }
+    let causes = || duplex_causes(ctx.case_seed, &run.events, &view, run.end_time);
+    let symptoms = || mon::diag::symptoms(&run.events);
+    mon::c02::check_completion(&mut rep, &g.cfg, &run, &causes, &symptoms);
+    // greedy phases
+    let mut greedy_from = [0u64; 2];
+    for s in 0..2usize {
+        if g.cfg.r[s].stall.is_some() {
+            greedy_from[s] = u64::MAX;
+        }
+    }
+    for e in &run.events {
+        if let crate::events::Ev::Note(n) = &e.ev {
+            for s in 0..2usize {
+                if n == &format!("reader conn=0 side={s} resumes") {
+                    greedy_from[s] = e.t;
+                }
+            }
+        }
+    }
+    // a reader whose stall point was never reached is greedy throughout
+    for s in 0..2usize {
+        if greedy_from[s] == u64::MAX {
+            let stalled = run.events.iter().any(|e| matches!(&e.ev, crate::events::Ev::Note(n) if n.starts_with(&format!("reader conn=0 side={s} stalls"))));
+            if !stalled {
+                greedy_from[s] = 0;
+            }
+        }
+    }
+    // observe until the drivers are done (the tail after that is close-down, judged by C08)
+    let done_at = run
+        .events
+        .iter()
+        .find(|e| matches!(&e.ev, crate::events::Ev::Note(n) if n == "drivers done"))
+        .map(|e| e.t)
+        .unwrap_or(run.end_time);
+    mon::c02::check_silence(&mut rep, &run.events, &view, latency, greedy_from, done_at);
+    mon::c02::check_idle_actions(&mut rep, &run.events, &view);
+    let addrs = if g.cfg.ipv6 {
+        [crate::sim::v6(duplex::A_PORT), crate::sim::v6(duplex::B_PORT)]
+    } else {
+        [crate::sim::v4(duplex::A_PORT), crate::sim::v4(duplex::B_PORT)]
+    };
+    mon::c02::check_reader_wakeups(&mut rep, &run.events, addrs);
+    rep.counters.add("datagrams", view.pkts.len() as u64);
+    rep.nontrivial = view.pkts.len() > 6;
+    let end = run.end_time;
+    finish(&mut rep, ctx, &view, run.events, end);
+    rep
+}
+
+/// Root causes (known failure mechanisms) visible in the history of a duplex case.
+pub fn duplex_causes(case_seed: u64, events: &[crate::events::Event], view: &WireView, end_time: u64) -> Vec<String> {
+    let mut out = Vec::new();
+    if view.conns.is_empty() {
+        return out;
+    }
+    let t_fail = mon::diag::first_death(events).map(|d| d.0).unwrap_or(end_time);
+    for from_init in [true, false] {
+        if mon::diag::zero_window_update_lost(view, 0, from_init, t_fail) {
+            out.push("zero-window-update-lost".to_string());
+            break;
+        }
+    }
+    if mon::diag::retransmissions_exhausted_into_zero_window(events, view, 0) {
+        out.push("zero-window-retransmissions-exhausted".to_string());
+    }
+    let mut scratch = CaseReport::new("scratch", 0, 0);
+    for (from_init, side) in [(true, 0u8), (false, 1u8)] {
+        let r = mon::c01::check_wire_dir(&mut scratch, view, 0, from_init, stream_key(case_seed, 0, side), "x");
+        if r.resegmented_after_delivery_at.is_some() {
+            out.push("probe-resegmented-after-delivery".to_string());
+            break;
+        }
+    }
+    if mon::diag::reassembler_refused_data(events, view, 0) {
+        out.push("reassembler-refused-in-window-data".to_string());
+    }
+    out
 }
 
 /// Common epilogue: hash, events retention.
